@@ -15,11 +15,16 @@ RULE = ("(a) header/frame codec: every 12-bit origin and destination, ids incl. 
         "compared with the reference TMRh20-numbering fragmenter and fed to a TMRh20-style "
         "reference reassembler; (c) the caller's header type after the call, including routed "
         "ACK-typed sends on a 3-node chain where the NETWORK_ACK comes back into the frame "
-        "buffer. Non-trivial: bytes were compared; distinct = distinct (part, length, type, "
+        "buffer; (d) sessions of 2..4 messages from one node (header objects re-used, long after "
+        "short and short after long, send/write/multicast mixed) with an outage of 5..120 ms that "
+        "begins at the first attempt of one fragment: the distinct frames on air must be a prefix "
+        "of the reference frames and a True result requires that the receiver accepted all of "
+        "them. Non-trivial: bytes were compared; distinct = distinct (part, length, type, "
         "field class).")
 REQUIRED = {"pack_bytes": 10000, "unpack_roundtrip": 10000, "short_buffer_refused": 50,
             "onair_frames_vs_reference": 200, "tmrh_reassembly": 200, "caller_header_type": 200,
-            "caller_header_type_routed": 10}
+            "caller_header_type_routed": 10, "session_frames_vs_reference": 1000,
+            "result_vs_accepted_frames": 800}
 BUDGET = {"quick": 150, "thorough": 400}
 
 
@@ -39,10 +44,36 @@ def gen_cases(ctx):
                         continue
                     yield {"part": "onair", "cls": cls, "len": n, "type": t, "how": how,
                            "to": [0, 0o11, 0][n % 3]}
+    yield from gen_sessions(ctx)
     # (c) routed sends on a chain
     for i in range(12 if ctx.tier == "quick" else 400):
         yield {"part": "routed", "type": [65, 66, 127, 1, 64, 100][i % 6], "len": [0, 5, 24, 30, 50][i % 5],
                "seed": i}
+
+
+def gen_sessions(ctx):
+    """(d) several messages in a row from one node: header objects re-used, long after short and
+    short after long, and an outage of 5..120 ms that begins with the first attempt of one
+    fragment (so that it is rescued by the first, second or third software retry, or lost)"""
+    rng = ctx.sub_rng("c11s")
+    for i in range(900 if ctx.tier == "quick" else 40000):
+        msgs = []
+        for k in range(rng.randrange(2, 5)):
+            how = rng.choice(["send", "send", "write", "multicast"])
+            ln = rng.choice([0, 1, 12, 23, 24, 25, 30, 47, 48, 49, 60, 72, 100, 144, rng.randrange(0, 145)])
+            t = rng.choice([0, 1, 2, 3, 64, 65, 84, 127, rng.randrange(0, 128)])
+            to = rng.choice([0, 0o11, 0o21])
+            reuse = bool(msgs) and how != "multicast" and msgs[-1]["how"] != "multicast" and rng.random() < 0.45
+            if reuse:
+                t, to = msgs[-1]["type"], msgs[-1]["to"]
+            msgs.append({"how": how, "len": ln, "type": t, "to": to, "reuse": reuse})
+        outage = None
+        uni = [j for j, mm in enumerate(msgs) if mm["how"] != "multicast"]
+        if uni and rng.random() < 0.5:
+            j = rng.choice(uni)
+            nfr = max(1, -(-msgs[j]["len"] // 24))
+            outage = {"msg": j, "frag": rng.randrange(nfr), "ms": rng.choice([rng.randrange(5, 120), rng.randrange(50, 90)])}
+        yield {"part": "session", "msgs": msgs, "outage": outage, "seed": rng.getrandbits(20)}
 
 
 def run_case(ctx, case):
@@ -50,8 +81,120 @@ def run_case(ctx, case):
         run_codec(ctx, case)
     elif case["part"] == "onair":
         run_onair(ctx, case)
+    elif case["part"] == "session":
+        run_session(ctx, case)
     else:
         run_routed(ctx, case)
+
+
+def _collapse(frames):
+    out = []
+    for f in frames:
+        if not out or out[-1] != f:
+            out.append(f)
+    return out
+
+
+def run_session(ctx, case):
+    m = repo()
+    rig = Rig(seed=case["seed"])
+    try:
+        ph = rig.air.promisc = Phantom()
+        radio = rig.radio("n")
+        node = rig.node
+        me = 0o1
+        obj = rig.driver(radio, cls=m["rf24_network"].RF24Network, node_address=me)
+        Hdr, Frame = m["structs"].RF24NetworkHeader, m["structs"].RF24NetworkFrame
+        out = case["outage"]
+        st = {"cur": None, "seen": [], "until": None}
+
+        def fault(pkt, rx):
+            if out is None or st["cur"] != out["msg"] or pkt.kind != "data":
+                return False
+            pl = bytes(pkt.payload)
+            if pl not in st["seen"]:
+                st["seen"].append(pl)
+                if len(st["seen"]) - 1 == out["frag"] and st["until"] is None:
+                    st["until"] = pkt.t0 + out["ms"] * W.MS
+            return st["until"] is not None and pkt.t0 < st["until"]
+        rig.air.fault = fault
+        prev = None
+        for j, mm in enumerate(case["msgs"]):
+            n, t, to, how = mm["len"], mm["type"], mm["to"], mm["how"]
+            msg = bytes((n * 3 + i * 7 + t + j) & 0xFF for i in range(n))
+            st["cur"], st["seen"] = j, []
+            air0, ack0 = len(rig.air.log), len(ph.acked)
+            node.deadline = node.t + 4000 * W.MS
+            hdr = None
+            try:
+                if how == "multicast":
+                    ret = obj.multicast(msg, t, 2)
+                    to = 0o100
+                    fid = obj.frame_buf.header.frame_id
+                else:
+                    hdr = prev if (mm["reuse"] and prev is not None) else Hdr(to, t)
+                    fid = hdr.frame_id
+                    ret = obj.send(hdr, msg) if how == "send" else obj.write(Frame(hdr, msg))
+            except W.VirtualDeadline:
+                ctx.violation("session/no-return", "message %d of %r did not return" % (j, case["msgs"]), case)
+                return
+            finally:
+                node.deadline = None
+            node.idle(3 * W.MS)
+            prev = hdr if hdr is not None else None
+            what = "message %d (%s, %d bytes, type %d%s%s)" % (
+                j, how, n, t, ", header object re-used" if mm["reuse"] else "",
+                ", outage %r" % out if out and out["msg"] == j else "")
+            pk = [p for p in rig.air.log[air0:] if p.kind == "data"]
+            distinct = _collapse([bytes(p.payload) for p in pk])
+            want = net_ref.fragment(me, to, fid, t, msg)
+            hit = out is not None and out["msg"] == j
+            ctx.clause("session_frames_vs_reference")
+            if (not hit and distinct != want) or (hit and distinct != want[:len(distinct)]):
+                bad = next((i for i, (a, b) in enumerate(zip(distinct, want)) if a != b), min(len(distinct), len(want)))
+                ctx.violation("session-frames/%s" % how, "%s after %r: %d distinct frames on air, reference %d; "
+                              "first difference at frame %d: %s vs %s"
+                              % (what, [(x["how"], x["len"], x["type"]) for x in case["msgs"][:j]], len(distinct),
+                                 len(want), bad, distinct[bad].hex() if bad < len(distinct) else None,
+                                 want[bad].hex() if bad < len(want) else None), case)
+                return
+            if how != "multicast":
+                accepted = _collapse([bytes(p.payload) for p in ph.acked[ack0:]])
+                ctx.clause("result_vs_accepted_frames")
+                if ret is True and accepted != want:
+                    ctx.violation("session-true-but-incomplete", "%s returned True but the receiver accepted %d of "
+                                  "%d frames (last accepted: %s)" % (what, len(accepted), len(want),
+                                                                    accepted[-1].hex() if accepted else None), case)
+                    return
+                if ret is not True and accepted == want and not hit:
+                    ctx.violation("session-false-but-complete", "%s returned %r although every frame was "
+                                  "acknowledged" % (what, ret), case)
+                    return
+                if ret is True:
+                    ra = net_ref.TmrhReassembler()
+                    for f in accepted:
+                        ra.feed(f)
+                    ctx.clause("tmrh_reassembly")
+                    if len(ra.out) != 1 or ra.out[0]["msg"] != msg or ra.out[0]["type"] != t:
+                        ctx.violation("tmrh-reassembly", "%s: TMRh20-style receiver yields %r"
+                                      % (what, [(o["type"], len(o["msg"])) for o in ra.out]), case)
+                        return
+            if hdr is not None:
+                ctx.clause("caller_header_type")
+                if hdr.message_type != t:
+                    ctx.violation("caller-header-type", "%s: caller's header type is %r afterwards (returned %r)"
+                                  % (what, hdr.message_type, ret), case)
+                    return
+            if hit:
+                ctx.count("outage_ret_%r" % (ret is True))
+                ctx.distinct("outage_rescue", (len(want), out["frag"], out["ms"] // 10, ret is True))
+            ctx.nontrivial(("session", how, n, t, mm["reuse"], hit and out["ms"] // 10))
+        if radio.san:
+            ctx.violation("sanitizer:" + radio.san[0][0], radio.san[0][1], case)
+            return
+        ctx.sample({"part": "session", "msgs": case["msgs"], "outage": out})
+    finally:
+        rig.close()
 
 
 def run_codec(ctx, case):
